@@ -384,49 +384,64 @@ def delimTokenToStr (config : Config) (d : Delim) (shape : Shape) (multi innerEm
       | .ok nested => .ok (lhs ++ [.ws nested], .ws indentStr :: rhs)
   else .ok (lhs, rhs)
 
+/-- `wrap_macro_args_inner` around its loop (`loop` gets the indent string). -/
+def wrapInnerWith (config : Config) (shape : Shape) (multi : Bool)
+    (loop : List Char → R (List Piece)) : R (List Piece) :=
+  match liftPanic (shape.indent.to_string_with_newline config) with
+  | .error e => .error e
+  | .ok indentStr =>
+    match loop indentStr with
+    | .error e => .error e
+    | .ok result => if !multi && blen result ≥ shape.width then .error .err else .ok result
+
+/-- `rewrite_delimited_inner` given `wrap_macro_args` on the group's arguments as a function of the
+shape: `(lhs, inner, rhs)` concatenated. -/
+def rewriteDelimitedWith (config : Config) (shape : Shape) (d : Delim)
+    (wrap : Shape → R (List Piece)) : R (List Piece) :=
+  match wrap shape with
+  | .error e => .error e
+  | .ok inner =>
+    match delimTokenToStr config d shape false (render inner).isEmpty with
+    | .error e => .error e
+    | .ok (lhs, rhs) =>
+      if blen lhs + blen inner + blen rhs ≤ shape.width then .ok (lhs ++ inner ++ rhs)
+      else
+        match delimTokenToStr config d shape true false with
+        | .error e => .error e
+        | .ok (lhs, rhs) =>
+          match wrap ((shape.block_indent config.tab_spaces).with_max_width config) with
+          | .error e => .error e
+          | .ok inner => .ok (lhs ++ inner ++ rhs)
+
+/-- What `wrap_macro_args_inner` puts behind the rewritten `arg` (`acc` ends with it). -/
+def wrapGlue (multi : Bool) (indentStr : List Char) (arg : Arg) (next : Option Arg)
+    (acc : List Piece) : List Piece :=
+  let nextMeta := match next with | some n => n.hasMetaVar | none => false
+  if multi && (arg.endsWithSpace || nextMeta) then
+    (if arg.endsWithSpace then popChar acc else acc) ++ [.ws indentStr]
+  else
+    match next with
+    | some n =>
+      if (!arg.endsWithSpace && n.startsWithDollar) || n.startsWithBrace then acc ++ [sp] else acc
+    | none => acc
+
 mutual
 /-- `ParsedMacroArg::rewrite` (`use_multiple_lines` is passed on and never read) -/
 def rewriteArg (config : Config) (shape : Shape) : Arg → R (List Piece)
   | .metaVar ty name => .ok (ptok dollar :: (name ++ [ptok colon, ptok ⟨.Ident, ty⟩]))
   | .repeat d args another tok =>
-    -- `rewrite_delimited_inner`
-    match retry (wrapInner config shape false args) (fun _ => wrapInner config shape true args) with
+    match rewriteDelimitedWith config shape d (fun sh =>
+        retry (wrapInnerWith config sh false (fun s => wrapLoop config sh false s [] args))
+          (fun _ => wrapInnerWith config sh true (fun s => wrapLoop config sh true s [] args))) with
     | .error e => .error e
-    | .ok inner =>
-      match delimTokenToStr config d shape false (render inner).isEmpty with
-      | .error e => .error e
-      | .ok (lhs, rhs) =>
-        let body : R (List Piece) :=
-          if blen lhs + blen inner + blen rhs ≤ shape.width then .ok (lhs ++ inner ++ rhs)
-          else
-            match delimTokenToStr config d shape true false with
-            | .error e => .error e
-            | .ok (lhs, rhs) =>
-              let nested := (shape.block_indent config.tab_spaces).with_max_width config
-              match retry (wrapInner config nested false args) (fun _ => wrapInner config nested true args) with
-              | .error e => .error e
-              | .ok inner => .ok (lhs ++ inner ++ rhs)
-        match body with
-        | .error e => .error e
-        | .ok b => .ok (ptok dollar :: (b ++ another.getD [] ++ [ptok tok]))
+    | .ok b => .ok (ptok dollar :: (b ++ another.getD [] ++ [ptok tok]))
   | .delimited d args =>
-    match retry (wrapInner config shape false args) (fun _ => wrapInner config shape true args) with
-    | .error e => .error e
-    | .ok inner =>
-      match delimTokenToStr config d shape false (render inner).isEmpty with
-      | .error e => .error e
-      | .ok (lhs, rhs) =>
-        if blen lhs + blen inner + blen rhs ≤ shape.width then .ok (lhs ++ inner ++ rhs)
-        else
-          match delimTokenToStr config d shape true false with
-          | .error e => .error e
-          | .ok (lhs, rhs) =>
-            let nested := (shape.block_indent config.tab_spaces).with_max_width config
-            match retry (wrapInner config nested false args) (fun _ => wrapInner config nested true args) with
-            | .error e => .error e
-            | .ok inner => .ok (lhs ++ inner ++ rhs)
+    rewriteDelimitedWith config shape d (fun sh =>
+      retry (wrapInnerWith config sh false (fun s => wrapLoop config sh false s [] args))
+        (fun _ => wrapInnerWith config sh true (fun s => wrapLoop config sh true s [] args)))
   | .separator s pre => .ok (pre ++ s ++ [sp])
   | .other inner pre => .ok (pre ++ inner)
+termination_by structural a => a
 /-- The `while let Some(arg) = iter.next()` loop of `wrap_macro_args_inner`; `acc` is `result`. -/
 def wrapLoop (config : Config) (shape : Shape) (multi : Bool) (indentStr : List Char)
     (acc : List Piece) : List Arg → R (List Piece)
@@ -434,27 +449,13 @@ def wrapLoop (config : Config) (shape : Shape) (multi : Bool) (indentStr : List 
   | arg :: rest =>
     match rewriteArg config shape arg with
     | .error e => .error e
-    | .ok r =>
-      let acc := acc ++ r
-      let nextMeta := match rest with | n :: _ => n.hasMetaVar | [] => false
-      let acc :=
-        if multi && (arg.endsWithSpace || nextMeta) then
-          (if arg.endsWithSpace then popChar acc else acc) ++ [.ws indentStr]
-        else
-          match rest with
-          | n :: _ =>
-            if (!arg.endsWithSpace && n.startsWithDollar) || n.startsWithBrace then acc ++ [sp] else acc
-          | [] => acc
-      wrapLoop config shape multi indentStr acc rest
+    | .ok r => wrapLoop config shape multi indentStr (wrapGlue multi indentStr arg rest.head? (acc ++ r)) rest
+termination_by structural args => args
+end
+
 /-- `wrap_macro_args_inner` -/
 def wrapInner (config : Config) (shape : Shape) (multi : Bool) (args : List Arg) : R (List Piece) :=
-  match liftPanic (shape.indent.to_string_with_newline config) with
-  | .error e => .error e
-  | .ok indentStr =>
-    match wrapLoop config shape multi indentStr [] args with
-    | .error e => .error e
-    | .ok result => if !multi && blen result ≥ shape.width then .error .err else .ok result
-end
+  wrapInnerWith config shape multi (fun s => wrapLoop config shape multi s [] args)
 
 /-- `wrap_macro_args` -/
 def wrapMacroArgs (config : Config) (shape : Shape) (args : List Arg) : R (List Piece) :=
